@@ -54,7 +54,7 @@ int _GD_AsciiOpen(int fd, struct gd_raw_file_* file, gd_type_t type gd_unused_,
 }
 
 off64_t _GD_AsciiSeek(struct gd_raw_file_* file, off64_t count,
-    gd_type_t data_type gd_unused_, unsigned int mode)
+    gd_type_t data_type, unsigned int mode)
 {
   char line[64];
 
@@ -70,7 +70,7 @@ off64_t _GD_AsciiSeek(struct gd_raw_file_* file, off64_t count,
       break;
 
   if (mode & GD_FILE_WRITE && count > file->pos) {
-    strcpy(line, "0\n");
+    strcpy(line, (data_type & GD_COMPLEX) ? "0;0\n" : "0\n");
     for (; count > file->pos; ++file->pos)
       fputs(line, (FILE *)file->edata);
   }
